@@ -82,12 +82,14 @@ func (b *BoundedIterator) SeekToLast() {
 		}
 
 		var lastKey []byte
+		found := false // the zero-length key is a key too: lastKey alone cannot tell
 		for b.Iterator.Valid() && bytes.Compare(b.Iterator.Key(), b.end) < 0 {
 			lastKey = append(lastKey[:0], b.Iterator.Key()...)
+			found = true
 			b.Iterator.Next()
 		}
 
-		if lastKey != nil {
+		if found {
 			b.Iterator.Seek(lastKey)
 		}
 		// Otherwise no key lies before the end bound: the iterator is now
